@@ -659,7 +659,10 @@ func (d *DNSFilter) processRewrites(host string, qtype uint16) (res Result) {
 	for matched && len(rewrites) > 0 && rewrites[0].Type == dns.TypeCNAME {
 		rw := rewrites[0]
 		rwPat := rw.Domain
-		rwAns := rw.Answer
+
+		// The patterns and the hosts are in lower case, so compare and look
+		// the canonical name up in lower case as well.
+		rwAns := strings.ToLower(rw.Answer)
 
 		log.Debug("rewrite: cname for %s is %s", host, rwAns)
 
